@@ -148,6 +148,27 @@ func (ex *Exec) intrinsic(fn *ssa.Function, args []Value) (Value, bool) {
 		case "vTrace":
 			ex.tracing = args[0].(*Term).c != 0
 			return nil, true
+		case "vShare":
+			// vShare(root interface{}): mark the object graph below root as shared state
+			if iv, ok := args[0].(*IfaceV); ok && iv != nil {
+				ex.share(iv.v, "shared", map[interface{}]bool{})
+			} else {
+				ex.share(args[0], "shared", map[interface{}]bool{})
+			}
+			return nil, true
+		case "vFileAccess":
+			if ex.tracing {
+				saved := ex.cur
+				// attribute the access to the code that called into the file-system stub
+				for ex.cur != nil && ex.inHarnessFrame(ex.cur) {
+					ex.cur = ex.cur.caller
+				}
+				if ex.cur != nil {
+					ex.checkAccess(args[0].(*Term).c != 0, false, "file")
+				}
+				ex.cur = saved
+			}
+			return nil, true
 		case "vLockHeld":
 			// vLockHeld(mu *sync.RWMutex) int: 0 free, 1 read, 2 write
 			c, _ := args[0].(*Cell)
@@ -296,7 +317,21 @@ func (ex *Exec) intrinsic(fn *ssa.Function, args []Value) (Value, bool) {
 		if conc {
 			return p.Bool(regexp.MustCompile(pat).Match(raw)), true
 		}
-		// uninterpreted predicate of the bytes, one function per (pattern, length)
+		// simple anchored patterns have an exact term semantics (so that replays agree with the real
+		// regexp engine): "^[x-y]" and "^c"
+		if len(pat) == 6 && pat[0] == '^' && pat[1] == '[' && pat[3] == '-' && pat[5] == ']' {
+			if len(bs) == 0 {
+				return p.Bool(false), true
+			}
+			return p.And(p.Bin("bvule", p.BV(8, uint64(pat[2])), bs[0]), p.Bin("bvule", bs[0], p.BV(8, uint64(pat[4])))), true
+		}
+		if len(pat) == 2 && pat[0] == '^' && (pat[1] >= 'a' && pat[1] <= 'z' || pat[1] >= '0' && pat[1] <= '9') {
+			if len(bs) == 0 {
+				return p.Bool(false), true
+			}
+			return p.Bin("=", bs[0], p.BV(8, uint64(pat[1]))), true
+		}
+		// otherwise: uninterpreted predicate of the bytes, one function per (pattern, length)
 		id := ex.eng.patternID(pat)
 		return ex.ufApply(fmt.Sprintf("rx_%d_%d", id, len(bs)), 0, bs), true
 	case "(*sync.RWMutex).Lock", "(*sync.Mutex).Lock":
